@@ -47,7 +47,8 @@ Proof. repeat split; vm_compute; reflexivity. Qed.
    the host rewrite) describes a request the client never sent *)
 Definition ex_inreq (xfp : str) : inreq :=
   {| ir_host := bs "example.com"; ir_path := bs "/foo"; ir_query := []; ir_xfp := xfp; ir_fwd := [];
-     ir_ws := false; ir_tls := false; ir_remote_ip := bs "10.0.0.7"; ir_proto := bs "HTTP/1.1" |}.
+     ir_ws := false; ir_tls := false; ir_remote_ip := bs "10.0.0.7"; ir_proto := bs "HTTP/1.1";
+     ir_method := bs "GET"; ir_uri := bs "/foo" |}.
 Definition ex_ropt (hostopt : str) : ropt :=
   {| ro_scheme := bs "http"; ro_host := bs "127.0.0.1:5000"; ro_query := []; ro_hostopt := hostopt;
      ro_strip := []; ro_prepend := []; ro_service := bs "svc" |}.
@@ -59,27 +60,71 @@ Theorem lazy_request_url_refuted :
   up_scheme (sv_request_url (serve_event (ex_inreq (bs "https")) (ex_ropt []))) = bs "https".
 Proof. repeat split; vm_compute; reflexivity. Qed.
 
-(* F-C20-4: Event.Request is the live request, so $request_host shows the host a host= route
-   option wrote into it, next to a $request_url that shows the host the client asked for *)
+(* ---------------- the RENDERED request-side fields ---------------- *)
+(* F-C20-4 (fixed by 5d3ea07): Event.Request is the live request, so Request.Host is the host a
+   host= route option wrote into it; $request_host used to print that, next to a $request_url
+   with the host the client asked for.  About the [_unrepaired] renderer; the repaired one
+   prints the host of the saved request URL *)
 Theorem request_host_rewritten_refuted :
-  exists r o, sv_request_host (serve_event r o) <> ir_host r /\
-              up_host (sv_request_url (serve_event r o)) = ir_host r.
+  exists r o s,
+    render_field_unrepaired FRequestHost (event_of r (serve_event r o) s) = Ok (bs "127.0.0.1:5000") /\
+    ir_host r = bs "example.com" /\
+    render_field FRequestHost (event_of r (serve_event r o) s) = Ok (ir_host r) /\
+    sv_request_host (serve_event r o) = bs "127.0.0.1:5000".
 Proof.
-  exists (ex_inreq []), (ex_ropt (bs "dst")). split; [|reflexivity]. vm_compute. discriminate.
+  exists (ex_inreq []), (ex_ropt (bs "dst")), (bs "http://example.com/foo").
+  repeat split; vm_compute; reflexivity.
 Qed.
 
-(* outside that region every request-side field of the Event is the request as received *)
-Theorem request_side_on_domain r o :
-  region_host_rewritten r o = false ->
-  request_side_as_received r (sv_request_url (serve_event r o)) (sv_request_host (serve_event r o)) = true.
+(* every request-side field, rendered from the Event ServeHTTP builds, is what a logger that
+   saw only the request as received would print: no route option and no later mutation of the
+   live request shows - for all requests, all options *)
+Theorem rendered_request_fields_as_received r o s f :
+  In f request_fields ->
+  render_field f (event_of r (serve_event r o) s) = render_field f (received_event r s).
 Proof.
-  unfold region_host_rewritten, request_side_as_received. intros H.
-  apply negb_false_iff in H. cbn [serve_event sv_request_url sv_request_host].
-  rewrite urlparts_eqb_refl. cbn [andb].
-  unfold rewrite_host in *. cbn [rs_host add_headers st_received] in *. exact H.
+  unfold request_fields. intros H.
+  repeat (destruct H as [<-|H]; [reflexivity|]). destruct H.
 Qed.
 
-Example request_side_on_domain_nonvacuous :
-  region_host_rewritten (ex_inreq (bs "https")) (ex_ropt []) = false /\
-  region_host_rewritten (ex_inreq []) (ex_ropt (bs "dst")) = true.
-Proof. split; vm_compute; reflexivity. Qed.
+Corollary rendered_request_fields_depend_only_on_request r o1 o2 s f :
+  In f request_fields ->
+  render_field f (event_of r (serve_event r o1) s) = render_field f (event_of r (serve_event r o2) s).
+Proof. intros H. now rewrite !rendered_request_fields_as_received. Qed.
+
+(* the same for whole lines: any pattern made of literal text and request-side fields *)
+Definition request_item (it : item) : Prop :=
+  match it with IText _ => True | IHeader _ => False | IField f => In f request_fields end.
+
+Lemma write_items_ext p e1 e2 :
+  (forall it, In it p -> render_item it e1 = render_item it e2) -> pattern_write p e1 = pattern_write p e2.
+Proof.
+  intros H. unfold pattern_write, pattern_write_with.
+  assert (E : write_items_with render_field p e1 = write_items_with render_field p e2).
+  { induction p as [|it p IH]; [reflexivity|]. cbn [write_items_with].
+    pose proof (H it (or_introl eq_refl)) as Hi. unfold render_item in Hi. rewrite Hi.
+    rewrite IH; [reflexivity|]. intros it' I. apply H. now right. }
+  now rewrite E.
+Qed.
+
+Theorem rendered_request_line_as_received r o s p :
+  Forall request_item p ->
+  pattern_write p (event_of r (serve_event r o) s) = pattern_write p (received_event r s).
+Proof.
+  intros Hp. apply write_items_ext. intros it I.
+  rewrite Forall_forall in Hp. specialize (Hp it I).
+  destruct it as [t|n|f]; [reflexivity | destruct Hp |].
+  unfold render_item. cbn [render_item_with]. now apply rendered_request_fields_as_received.
+Qed.
+
+Example request_format_is_request_side :
+  exists p, new_logger request_format = Ok p /\ Forall request_item p.
+Proof.
+  eexists. split; [vm_compute; reflexivity|].
+  repeat constructor; cbn [request_item request_fields In]; tauto.
+Qed.
+
+Example rendered_line_example :
+  log_line request_format (event_of (ex_inreq (bs "https")) (serve_event (ex_inreq (bs "https")) (ex_ropt (bs "dst"))) (bs "https://example.com/foo"))
+  = Ok (bs "GET /foo HTTP/1.1||example.com|GET|https|/foo|https://example.com/foo|HTTP/1.1" ++ [10]).
+Proof. vm_compute. reflexivity. Qed.
